@@ -435,6 +435,10 @@ pub fn exec(calls: &[Call], sources: &[Vec<u8>]) -> (Vec<Res>, Vec<u8>) {
 }
 
 thread_local! {
+    /// when non-zero, `exec_append` opens the archive through a stream that transfers at most this many bytes per call
+    pub static APPEND_CHUNK: std::cell::Cell<usize> = const { std::cell::Cell::new(0) };
+}
+thread_local! {
     /// how `Call::Write` hands its bytes to the writer: 0 = write_all, 1 = write_vectored (two slices per call)
     pub static WRITE_MODE: std::cell::Cell<u8> = const { std::cell::Cell::new(0) };
 }
@@ -518,6 +522,10 @@ pub fn exec_chunked(calls: &[Call], sources: &[Vec<u8>], sink_chunk: usize, src_
 
 /// Open `base` for append and run the calls; the first result is that of `new_append`.
 pub fn exec_append(base: &[u8], calls: &[Call], sources: &[Vec<u8>]) -> (Vec<Res>, Vec<u8>) {
+    let chunk = APPEND_CHUNK.with(|c| c.get());
+    if chunk > 0 {
+        return exec_append_chunked(base, calls, sources, chunk);
+    }
     let sink = SharedBuf::new(base.to_vec());
     let mut out = Vec::with_capacity(calls.len() + 1);
     let opened = guard(|| ZipWriter::new_append(sink.clone()));
